@@ -7,6 +7,5 @@ def exec : List Sx.Sexp → String
   | .atom "descs" :: rest => DescC19.exec (.atom "descs" :: rest)
   | .atom "descx" :: rest => DescC19.exec (.atom "descx" :: rest)
   | .atom "sigd" :: rest => DescC19.exec (.atom "sigd" :: rest)
-  | .atom "descc" :: rest => DescC19.exec (.atom "descc" :: rest)
   | xs => Lat.execOnly ["desc", "assert", "asg", "inst"] xs
 end C19
